@@ -235,7 +235,7 @@ def run_sensitivity(prop):
 
     def sh(*a, **k):
         return subprocess.run(a, capture_output=True, text=True, **k)
-    res = {"caught": [], "missed": [], "skipped": []}
+    res = {"caught": [], "missed": [], "skipped": [], "benign_silent": [], "benign_false_alarm": []}
     try:
         r = sh("git", "-C", facts.REPO, "worktree", "add", "--detach", wt)
         if r.returncode:
@@ -246,9 +246,11 @@ def run_sensitivity(prop):
         base_state = sh("git", "-C", wt, "diff").stdout
         env = dict(os.environ, VERIF_REPO=wt, VERIF_CACHE=cache, VERIF_KEEP_TARGET="1", VERIF_EVIDENCE_DIR=os.path.join(base, "ev"), VERIF_TIER="quick")
 
-        def run_check():
+        def run_check(benign=False):
             rr = sh(os.path.join(VERIF, "bin", "check"), prop, "--tier", "quick", env=env)
             out = rr.stdout + rr.stderr
+            if benign:
+                return rr.returncode == 0 and "VIOLATION" not in out and "BROKEN" not in out
             return rr.returncode == 1 and f"VIOLATION property={prop}" in out and "BROKEN" not in out
 
         def reset():
@@ -273,7 +275,10 @@ def run_sensitivity(prop):
                 res["skipped"].append(m["name"])
                 reset()
                 continue
-            (res["caught"] if run_check() else res["missed"]).append(m["name"])
+            if m.get("benign"):
+                (res["benign_silent"] if run_check(True) else res["benign_false_alarm"]).append(m["name"])
+            else:
+                (res["caught"] if run_check() else res["missed"]).append(m["name"])
             reset()
         for dname in seeded:
             r = sh("git", "-C", wt, "apply", os.path.join(sd, dname, "patch.diff"))
@@ -288,6 +293,8 @@ def run_sensitivity(prop):
         shutil.rmtree(base, ignore_errors=True)
     for mname in res["missed"]:
         print(f"SENSITIVITY-LOST property={prop} mutation={mname} (the check no longer reports this known breakage)")
+    for mname in res["benign_false_alarm"]:
+        print(f"SENSITIVITY-FALSE-ALARM property={prop} refactor={mname} (the check reports a behaviour-preserving refactor)")
     res["mutations"] = len(hand) + len(seeded)
     return res
 
